@@ -184,7 +184,7 @@ def find_impl(src: str, header: str) -> tuple[int, int]:
     """span (inside braces) of `impl... HEADER {`; header compared whitespace-insensitively,
     e.g. "impl Query for Selector" or "impl<'a, T: Queryable> Data<'a, T>"."""
     want = _norm(header)
-    for m in re.finditer(r"(?m)^\s*impl\b[^{;]*\{", src):
+    for m in re.finditer(r"(?m)^\s*(?:impl|pub\s+trait|trait)\b[^{;]*\{", src):
         got = _norm(m.group(0)[:-1])
         if got == want:
             toks = tokenize(src[m.end() - 1:])
